@@ -7,7 +7,7 @@ PROPS = {
         "level": "proof",
         "harness": ["purediff", "gwrun"],
         "stages": [("pure", stage_pure, {"suites": ["can_call"], "n_quick": 20000, "n_thorough": 400000}),
-                   ("gw", stage_gw, {"profiles": [("access", 600, 6000), ("scacc", 500, 4000), ("accrefs", 400, 3000)]})],
+                   ("gw", stage_gw, {"profiles": [("access", 500, 6000), ("scacc", 500, 4000), ("accrefs", 300, 3000), ("http", 400, 3000)]})],
         "rule": "structured call lists over a 4-letter alphabet with empty/star entries, action = entry | prefix | suffix | "
                 "random | whole list | raw bytes, 10% byte-mutated; non-trivial = list with >= 2 entries; distinct by input",
         "assumptions": ["codec.AccessResult decoding (encoding/json) is not modelled"],
@@ -37,7 +37,8 @@ PROPS = {
         "level": "proof",
         "harness": ["purediff", "gwrun"],
         "stages": [("pure", stage_pure, {"suites": ["valid_rid", "dispatch", "httppath"], "n_quick": 8000, "n_thorough": 200000}),
-                   ("subjects", stage_pure, {"suites": ["subjects"], "n_quick": 600, "n_thorough": 6000})],
+                   ("subjects", stage_pure, {"suites": ["subjects"], "n_quick": 600, "n_thorough": 6000}),
+                   ("gw", stage_gw, {"profiles": [("http", 500, 4000)]})],
         "rule": "all 256 bytes in 4 positions for IsValidRID/IsValidRIDPart; dotted strings over a token alphabet with control bytes, "
                 "wildcards, invalid UTF-8, {cid}, queries, byte mutations; WebSocket method strings through the real rpc.HandleRequest with "
                 "a recording requester; HTTP paths with percent-escapes of every byte under 4 apiPath prefixes; non-trivial = accepted input",
@@ -49,13 +50,14 @@ PROPS = {
     "C17": {
         "coq": ["Props/C17.v"],
         "level": "proof",
-        "harness": ["purediff"],
-        "stages": [("pure", stage_pure, {"suites": ["status", "origin", "header"], "n_quick": 8000, "n_thorough": 200000})],
+        "harness": ["purediff", "gwrun"],
+        "stages": [("pure", stage_pure, {"suites": ["status", "origin", "header"], "n_quick": 8000, "n_thorough": 200000}),
+                   ("gw", stage_gw, {"profiles": [("http", 700, 5000)]})],
         "rule": "all defined error codes + unknown codes; every status -5..1023 for statusError / IsDirectResponseStatus / IsValidStatus "
                 "(exhaustive over that range); allow-lists accepted by the configuration validator against origins in mixed case, with "
                 "ports, non-ASCII and invalid UTF-8 and byte mutations; meta headers in random letter case incl. all protected names, "
                 "multi-valued, merged into random response headers; non-trivial = match / non-empty meta",
-        "assumptions": ["textproto.CanonicalMIMEHeaderKey is modelled for valid header tokens only", "net/http response writing is not modelled"],
+        "assumptions": ["textproto.CanonicalMIMEHeaderKey is modelled for valid header tokens only", "net/http response writing is not modelled (responses are observed through a response recorder)"],
         "technique": "Coq proofs (status tables for all integers/codes) + differential correspondence of errorStatus, statusError, Meta status predicates, matchesOrigins, Canonicalize+MergeHeader with the extracted models and spec checks",
         "level_text": "Table theorems for all Z and all codes; header merge and origin matching tied by differential runs with spec checks on the implementation's own output",
         "level_note": "trusted: Coq kernel, extraction, Go harness; modelled not verified: net/textproto, net/http",
@@ -124,7 +126,7 @@ PROPS = {
         "level": "proof",
         "harness": ["gwrun", "purediff"],
         "stages": [("pure", stage_pure, {"suites": ["dispatch"], "n_quick": 4000, "n_thorough": 80000}),
-                   ("gw", stage_gw, {"profiles": [("basic", 200, 2000), ("refs", 200, 2500), ("churn", 300, 3000), ("access", 300, 2500), ("scacc", 300, 2500), ("reset", 200, 1500), ("accrefs", 200, 1500), ("wild", 0, 1500)]})],
+                   ("gw", stage_gw, {"profiles": [("basic", 200, 2000), ("refs", 200, 2500), ("churn", 300, 3000), ("access", 300, 2500), ("scacc", 300, 2500), ("reset", 200, 1500), ("accrefs", 200, 1500), ("http", 250, 2000), ("wild", 0, 1500)]})],
         "rule": "as C01; response ledger: every response matches exactly one outstanding request id of that connection, nothing outstanding at quiescence; "
                 "plus the dispatcher differential (exactly one immediate reply or one requester call per method string)",
         "assumptions": [],
@@ -149,7 +151,7 @@ PROPS = {
         "level": "proof",
         "harness": ["gwrun", "purediff"],
         "stages": [("pure", stage_pure, {"suites": ["can_get"], "n_quick": 10, "n_thorough": 10}),
-                   ("gw", stage_gw, {"profiles": [("access", 600, 6000), ("scacc", 500, 4000), ("accrefs", 400, 3000), ("basic", 150, 1200), ("wild", 0, 1000)]})],
+                   ("gw", stage_gw, {"profiles": [("access", 500, 6000), ("scacc", 500, 4000), ("accrefs", 300, 3000), ("http", 400, 3000), ("basic", 100, 1200), ("wild", 0, 1000)]})],
         "rule": "histories with a consistent access policy per (token, resource) that changes only together with a reaccess event, token event or "
                 "system reset; every access outcome (grant, get:false, accessDenied, internal error, timeout); subscribe/get/call/auth with "
                 "resource responses, concurrent requests on one resource; monitor: every data delivery for a directly requested resource needs an "
@@ -177,7 +179,7 @@ PROPS = {
         "coq": ["Props/C09.v"],
         "level": "proof",
         "harness": ["gwrun"],
-        "stages": [("gw", stage_gw, {"profiles": [("churn", 600, 5000), ("long", 300, 2000), ("scdisc", 400, 3000), ("basic", 150, 1000)]})],
+        "stages": [("gw", stage_gw, {"profiles": [("churn", 600, 5000), ("long", 300, 2000), ("scdisc", 400, 3000), ("http", 250, 2000), ("basic", 150, 1000)]})],
         "rule": "histories with disconnects, evictions fired at arbitrary moments, failing gets, delete events, resource ids around the control-line limit; "
                 "ending with every client gone and every eviction timer fired; monitor at each quiescent point (introspection): use count = subscribers, "
                 "unused <-> queued for eviction, entries = event subscriptions, every get under a standing subscription, data served only after a fetch under "
@@ -193,7 +195,7 @@ PROPS = {
         "harness": ["gwrun", "purediff"],
         "stages": [("pure", stage_pure, {"suites": ["expand_cid"], "n_quick": 3000, "n_thorough": 50000}),
                    ("subjects", stage_pure, {"suites": ["subjects"], "n_quick": 600, "n_thorough": 6000}),
-                   ("gw", stage_gw, {"profiles": [("access", 500, 4000), ("scacc", 500, 4000), ("churn", 250, 2000), ("accrefs", 250, 2000)]})],
+                   ("gw", stage_gw, {"profiles": [("access", 500, 4000), ("scacc", 500, 4000), ("churn", 250, 2000), ("accrefs", 200, 2000), ("http", 250, 2000)]})],
         "rule": "multi-connection histories with distinct tokens; monitor: no frame to a client contains any connection id, every service request made by "
                 "connection c's worker carries c's id and a token of c in effect since the last quiescent point; differential of the {cid} expansion",
         "assumptions": ["services never put connection ids into payloads (the mock does not)"],
@@ -205,12 +207,12 @@ PROPS = {
         "coq": ["Props/C11.v"],
         "level": "proof",
         "harness": ["gwrun"],
-        "stages": [("gw", stage_gw, {"profiles": [("churn", 500, 6000), ("accchurn", 300, 4000), ("scdisc", 500, 4000), ("scdisct", 400, 3000), ("scthr1", 200, 1500), ("wild", 0, 1500)],
+        "stages": [("gw", stage_gw, {"profiles": [("churn", 500, 6000), ("accchurn", 300, 4000), ("scdisc", 500, 4000), ("scdisct", 400, 3000), ("scthr1", 200, 1500), ("http", 300, 2500), ("wild", 0, 1500)],
                                      "monitor_props": ("C11", "C09", "C19")})],
         "rule": "disconnect injected at random steps with requests, loads, access checks and queued events outstanding, late answers delivered afterwards; "
                 "monitor at the next quiescent point: no subscription, no conn-event subscription left for the connection, use counts equal remaining "
                 "subscribers, and no service request on its behalf afterwards",
-        "assumptions": ["WebSocket connections only in this stage"],
+        "assumptions": ["HTTP requests are driven through the handler function with a response recorder (no net/http server)"],
         "technique": "Coq proof (use count stays the number of users under any release order; late release absorbed) + Coq cleanup monitor (extracted) on scheduled traces with introspection",
         "level_text": "Cache-side accounting proved; the cleanup statement is a decidable Coq predicate evaluated on explored histories with disconnects at arbitrary steps",
         "level_note": "trusted: Coq kernel, extraction, the harness (mock messaging system, consistent mock service, scheduler hooks, frame abstraction in harness/internal/gw); task atomicity (DESIGN section 4); modelled not verified: encoding/json, gorilla/websocket",
